@@ -1081,6 +1081,9 @@ func (p *printer) expr1(expr ast.Expr, prec1, depth int) {
 			p.expr1(x.Default, token.UnaryPrec, depth) // the parser reads the default as a unary expression
 		}
 	case *ast.LambdaExpr:
+		if prec1 > token.LowestPrec { // a lambda binds weaker than every operator
+			p.print(token.LPAREN)
+		}
 		if x.LhsHasParen {
 			p.print(token.LPAREN)
 			p.identList(x.Lhs, false)
@@ -1097,8 +1100,14 @@ func (p *printer) expr1(expr ast.Expr, prec1, depth int) {
 		} else {
 			p.expr(x.Rhs[0])
 		}
+		if prec1 > token.LowestPrec {
+			p.print(token.RPAREN)
+		}
 
 	case *ast.LambdaExpr2:
+		if prec1 > token.LowestPrec { // a lambda binds weaker than every operator
+			p.print(token.LPAREN)
+		}
 		if x.LhsHasParen {
 			p.print(token.LPAREN)
 			p.identList(x.Lhs, false)
@@ -1109,6 +1118,9 @@ func (p *printer) expr1(expr ast.Expr, prec1, depth int) {
 		}
 		p.print(token.DRARROW, blank)
 		p.block(x.Body, 1)
+		if prec1 > token.LowestPrec {
+			p.print(token.RPAREN)
+		}
 
 	case *ast.RangeExpr:
 		if x.First != nil {
